@@ -479,12 +479,14 @@ theorem phaMsgs_harmless (e : End) (ctx : Nat) : ∀ m ∈ phaMsgs e ctx, bump m
   simp only [] at hm
   split at hm <;> simp at hm <;> rcases hm with rfl | rfl | rfl <;> simp [bump, payload]
 
-theorem handlePha_post {P : End} {l : Local} (ctx : Nat) (sa : Bool) (h : LInv P l) :
+theorem handlePha_post {P : End} {l : Local} (ctx : Nat) (sa : Nat) (h : LInv P l) :
     Post P (fun _ l' => LInv P l') (handlePha ctx sa l) := by
   unfold handlePha
   split
   · exact sendError_post 109 _ h
-  · exact sendBuffered_post _ (phaMsgs_harmless _ _) h
+  · split
+    · exact sendError_post 40 _ h
+    · exact sendBuffered_post _ (phaMsgs_harmless _ _) h
 
 theorem srvPhaFinish_post {P : End} {l2 : Local} (chain : Nat) (h2 : LInv P l2) :
     Post P (fun _ l' => LInv P l') (srvPhaFinish chain l2) := by
@@ -778,7 +780,7 @@ theorem heartbeat_post {P : End} (p : Bytes) (n : Nat) {l : Local} (h : LInv P l
         have h1 : LInv P (advance (.heartbeat 1 p n) l1) := hs
         rwa [advance_harmless rfl rfl] at h1
 
-theorem requestClientAuth_post {P : End} {l : Local} (h : LInv P l) : LInv P (requestClientAuth l).2 := by
+theorem requestClientAuth_post {P : End} {l : Local} (sa : Nat) (h : LInv P l) : LInv P (requestClientAuth sa l).2 := by
   unfold requestClientAuth
   split
   · exact h
@@ -789,14 +791,14 @@ theorem requestClientAuth_post {P : End} {l : Local} (h : LInv P l) : LInv P (re
       · simp only []
         have h1 : LInv P { l with me := { l.me with certReqs := l.me.certReqs ++ [l.me.nextCtx], nextCtx := l.me.nextCtx + 1 } } :=
           linv_congr h rfl rfl rfl rfl rfl rfl rfl rfl rfl rfl
-        have hs := sendMsg_post (.certRequest l.me.nextCtx false) h1
-        generalize sendMsg (.certRequest l.me.nextCtx false) _ = x at hs
+        have hs := sendMsg_post (.certRequest l.me.nextCtx sa) h1
+        generalize sendMsg (.certRequest l.me.nextCtx sa) _ = x at hs
         obtain ⟨res, l1⟩ := x
         cases res with
         | stall => exact hs
         | err e => exact hs
         | ok u =>
-          have h2 : LInv P (advance (.certRequest l.me.nextCtx false) l1) := hs
+          have h2 : LInv P (advance (.certRequest l.me.nextCtx sa) l1) := hs
           rwa [advance_harmless rfl rfl] at h2
 
 theorem sendKeyUpdate_inv {P : End} (r : Bool) {l : Local} (h : LInv P l) :
@@ -941,10 +943,10 @@ theorem runLocal_inv {P : End} (op : Op) (ho : op.Honest) {l : Local} (h : LInv 
     generalize sendKeyUpdate (if r then 1 else 0) l = x at this ⊢
     obtain ⟨res, l1⟩ := x
     cases res <;> exact this
-  | requestClientAuth =>
-    have := requestClientAuth_post h
+  | requestClientAuth sa =>
+    have := requestClientAuth_post sa h
     simp only [runLocal]
-    generalize requestClientAuth l = x at this ⊢
+    generalize requestClientAuth sa l = x at this ⊢
     obtain ⟨res, l1⟩ := x
     cases res <;> exact this
   | heartbeat p n =>
